@@ -6,10 +6,14 @@ C16 — model of nipy's compiled numeric kernels.
   (the p-th order statistic), plus a literal transcription of the
   Hoare-partition selection loop `_pth_element` (fuel-bounded) that the
   correspondence check runs against the real C, permuted fibre included;
+  and of `_pth_interval` (`pivLoop`, both neighbouring order statistics) with the front end as written
+  (`quantileLit`); both loops are proved correct in `Lemmas/C16H.lean`;
 * all-but-axis iteration (`PyArray_IterAllButAxis`, `fffpy_multi_iterator`) as
   offset arithmetic over shape / strides;
 * `fff_blas.c`: the row-major → column-major flag tables of gemv, gemm, symm,
-  trmm, trsm, syrk over a reference (Fortran) semantics;
+  trmm, trsm, syrk over a reference (Fortran) semantics, driven by the table regenerated from the
+  source text (`Gen/C16Tables.lean`); the other wrappers are in `Model/C16L.lean`, the view layer of
+  fff_vector/fff_matrix/fff_array in `Model/C16B.lean`, the spline prefilter in `Model/C16S.lean`;
 * `histogram.pyx`;
 * `cubic_spline.c`: B-spline basis, boundary modes, neighbour window,
   mirrored positions, 1-D sampling (separable in n-D);
@@ -19,6 +23,7 @@ Exact rational arithmetic.  The truncated constants of the C code
 (`0.66666666666667`) are parameters of the model.
 -/
 import NipyVerif.Model.Common
+import NipyVerif.Gen.C16Tables
 namespace NipyVerif.C16
 
 /-! ## Order statistics (`quantile.c`, `fff_vector.c`) -/
@@ -112,6 +117,47 @@ def pthLoop (p : Nat) : Nat → Array Rat → Nat → Nat → Rat × Array Rat
 def pthElement (x : List Rat) (p : Nat) : Rat × List Rat :=
   let r := pthLoop p (2 * x.length + 2) x.toArray 0 (x.length - 1)
   (r.1, r.2.toList)
+
+/-- outer loop of `_pth_interval`: both the `p`-th and the `(p+1)`-th order statistics; state
+    `(stop1, stop2, am, aM)`; returns `(am, aM, permuted fibre)` -/
+def pivLoop (p : Nat) : Nat → Array Rat → Nat → Nat → Bool → Bool → Rat → Rat → Rat × Rat × Array Rat
+  | 0, x, _, _, _, _, am, aM => (am, aM, x)
+  | f + 1, x, il, jr, s1, s2, am, aM =>
+      if s1 ∧ s2 then (am, aM, x)
+      else
+        let xl := x.getD il 0
+        let xr := x.getD jr 0
+        let x1 := if xl > xr then swapA x il jr else x
+        let same := decide (xl = xr)
+        let a := x1.getD il 0
+        if il = jr then ((if s1 then am else a), (if s2 then aM else a), x1)
+        else
+          let r := partLoop a il jr same (x.size + 1) x1 (il + 1) jr
+          if r.2.2 > p + 1 then pivLoop p f r.1 il r.2.2 s1 s2 am aM
+          else if r.2.2 < p then pivLoop p f r.1 r.2.1 jr s1 s2 am aM
+          else if r.2.2 = p then pivLoop p f r.1 r.2.1 jr true s2 a aM
+          else pivLoop p f r.1 il r.2.2 s1 true am a
+
+def pthInterval (x : List Rat) (p : Nat) : Rat × Rat × List Rat :=
+  let r := pivLoop p (2 * x.length + 2) x.toArray 0 (x.length - 1) false false 0 0
+  (r.1, r.2.1, r.2.2.toList)
+
+/-- `quantile()` / `fff_vector_quantile()` as written: front end over the two selection loops;
+    returns the value and the permuted fibre -/
+def quantileLit (x : List Rat) (r : Rat) (interp : Bool) : Option (Q × List Rat) :=
+  if r < 0 ∨ 1 < r then none
+  else if x.length = 0 then none
+  else if x.length = 1 then some (.val (nth x 0), x)
+  else if !interp then
+    let p := ceilNat (r * (x.length : Nat))
+    if p = x.length then some (.posInf, x)
+    else let e := pthElement x p; some (.val e.1, e.2)
+  else
+    let pp : Rat := r * (((x.length - 1 : Nat) : Nat) : Rat)
+    let p := floorNat pp
+    let wM : Rat := pp - (p : Nat)
+    if wM ≤ 0 then let e := pthElement x p; some (.val e.1, e.2)
+    else let e := pthInterval x p; some (.val ((1 - wM) * e.1 + wM * e.2.1), e.2.2)
 
 /-! ## All-but-axis iteration as offset arithmetic -/
 
@@ -208,24 +254,41 @@ def IsTrsmF (s : Side) (u : Uplo) (t : Trans) (d : Diag) (m n : Nat) (al : Rat) 
   | .L => ∀ i j, i < m → j < n → sumTo m (fun l => (op t (triOf u d A)).get i l * X.get l j) = al * B.get i j
   | .R => ∀ i j, i < m → j < n → sumTo n (fun l => X.get i l * (op t (triOf u d A)).get l j) = al * B.get i j
 
-/-! the wrappers of `fff_blas.c` -/
+/-! the wrappers of `fff_blas.c`, driven by the flag table regenerated from the source text
+    (`Gen/C16Tables.lean`): which flags are swapped, in which order the operands are handed over,
+    which size is `m` -/
+
+/-- apply a flag swap iff the wrapper builds that flag with a `SWAP_*` macro -/
+def swIf {α : Type} (b : Bool) (f : α → α) (x : α) : α := if b then f x else x
+/-- `(m, n)` handed to the column-major routine -/
+def mn (mIsSize2 : Bool) (A : Mat) : Nat × Nat := if mIsSize2 then (A.c, A.r) else (A.r, A.c)
+/-- the two operands in the order of the Fortran call -/
+def ord2 {α : Type} (swapped : Bool) (a b : α) : α × α := if swapped then (b, a) else (a, b)
 
 def fffGemv (t : Trans) (al : Rat) (A : Mat) (x : Nat → Rat) (be : Rat) (y : Nat → Rat) : Nat → Rat :=
-  gemvF t.swap A.c A.r al A.T x be y
+  let d := mn Gen.gemvMIsSize2 A
+  let xy := ord2 Gen.gemvSwapsOperands x y
+  gemvF (swIf Gen.gemvSwapTrans Trans.swap t) d.1 d.2 al A.T xy.1 be xy.2
 
 def fffGemm (ta tb : Trans) (al : Rat) (A B : Mat) (be : Rat) (C : Mat) : Mat :=
   let k := match tb with | .N => B.r | .T => B.c
-  (gemmF tb ta C.c C.r k al B.T A.T be C.T).T
+  let d := mn Gen.gemmMIsSize2 C
+  let ts := ord2 Gen.gemmSwapsOperands (swIf Gen.gemmSwapTransA Trans.swap ta) (swIf Gen.gemmSwapTransB Trans.swap tb)
+  let ms := ord2 Gen.gemmSwapsOperands A.T B.T
+  (gemmF ts.1 ts.2 d.1 d.2 k al ms.1 ms.2 be C.T).T
 
 def fffSymm (s : Side) (u : Uplo) (al : Rat) (A B : Mat) (be : Rat) (C : Mat) : Mat :=
-  (symmF s.swap u.swap C.c C.r al A.T B.T be C.T).T
+  let d := mn Gen.symmMIsSize2 C
+  (symmF (swIf Gen.symmSwapSide Side.swap s) (swIf Gen.symmSwapUplo Uplo.swap u) d.1 d.2 al A.T B.T be C.T).T
 
 def fffTrmm (s : Side) (u : Uplo) (t : Trans) (d : Diag) (al : Rat) (A B : Mat) : Mat :=
-  (trmmF s.swap u.swap t d B.c B.r al A.T B.T).T
+  let dm := mn Gen.trmmMIsSize2 B
+  (trmmF (swIf Gen.trmmSwapSide Side.swap s) (swIf Gen.trmmSwapUplo Uplo.swap u) (swIf Gen.trmmSwapTrans Trans.swap t) d
+    dm.1 dm.2 al A.T B.T).T
 
 def fffSyrk (u : Uplo) (t : Trans) (al : Rat) (A : Mat) (be : Rat) (C : Mat) : Mat :=
   let k := match t with | .N => A.r | .T => A.c
-  (syrkF u.swap t.swap C.r k al A.T be C.T).T
+  (syrkF (swIf Gen.syrkSwapUplo Uplo.swap u) (swIf Gen.syrkSwapTrans Trans.swap t) C.r k al A.T be C.T).T
 
 /-- executable triangular solve `T X = R` for lower-triangular `T` (forward substitution,
     rows `0..m-1`, one column given as a function) -/
@@ -249,14 +312,18 @@ def triSolve (m n : Nat) (lower : Bool) (T : Mat) (R : Mat) : Mat :=
 
 /-- the wrapper `fff_blas_dtrsm` run through the Fortran view and transposed back -/
 def fffTrsm (s : Side) (u : Uplo) (t : Trans) (d : Diag) (al : Rat) (A B : Mat) : Mat :=
-  -- Fortran problem: side' = s.swap, uplo' = u.swap on A.T, B.T (B.c × B.r)
-  let TF := op t (triOf u.swap d A.T)
-  let lowerF := (u.swap = .L) = (t = .N)
-  let BF : Mat := ⟨B.c, B.r, fun i j => al * B.T.get i j⟩
-  match s.swap with
-  | .L => (triSolve B.c B.r lowerF TF BF).T
+  -- Fortran problem: side', uplo', trans' from the table, on A.T, B.T (m × n from the table)
+  let s' := swIf Gen.trsmSwapSide Side.swap s
+  let u' := swIf Gen.trsmSwapUplo Uplo.swap u
+  let t' := swIf Gen.trsmSwapTrans Trans.swap t
+  let dm := mn Gen.trsmMIsSize2 B
+  let TF := op t' (triOf u' d A.T)
+  let lowerF := (u' = .L) = (t' = .N)
+  let BF : Mat := ⟨dm.1, dm.2, fun i j => al * B.T.get i j⟩
+  match s' with
+  | .L => (triSolve dm.1 dm.2 lowerF TF BF).T
   | .R => -- X TF = BF  ⇔  TFᵀ Xᵀ = BFᵀ
-      (triSolve B.r B.c (!lowerF) TF.T BF.T)
+      (triSolve dm.2 dm.1 (!lowerF) TF.T BF.T)
 
 /-! ## Integer histogram (`histogram.pyx`) -/
 
@@ -400,6 +467,14 @@ def run : Toks → String
   | "quantile" :: rest =>
       match runP (do let r ← pRat; let i ← pBool; let x ← pList pRat; pure (r, i, x)) rest with
       | some (r, i, x) => fmtQ (quantile x r i)
+      | none => "bad-op"
+  | "qlit" :: rest =>
+      match runP (do let r ← pRat; let i ← pBool; let x ← pList pRat; pure (r, i, x)) rest with
+      | some (r, i, x) =>
+          match quantileLit x r i with
+          | none => "error:valueError"
+          | some (.posInf, y) => s!"inf | {fmtRats y}"
+          | some (.val v, y) => s!"{fmtRat v} | {fmtRats y}"
       | none => "bad-op"
   | "pth" :: rest =>
       match runP (do let p ← pNat; let x ← pList pRat; pure (p, x)) rest with
